@@ -297,6 +297,12 @@ func ruleRaw(c *Ctx) {
 					return
 				}
 				key := fmt.Sprintf("%s: store to %s.raw is non-nil", fname(fn), roleOf(fa.X))
+				if isNilConst(st.Val) {
+					invariant = false
+					invWhy = append(invWhy, "the text of an existing node is dropped at "+b.posOf(i))
+					l.add("R-RAW", b.Name, key, b.posOf(i), Violated, "the text of an existing node is set to nil: a node without text is what the resolver takes for a parent that cannot be used and what the null tests take for null, so a node that was decoded (or compared) a moment ago stops being reachable or starts to equal null", true)
+					return
+				}
 				if ok, why := a.rawArgNonNil(st.Val, i); ok {
 					l.add("R-RAW", b.Name, key, b.posOf(i), Discharged, why, true)
 				} else {
@@ -606,6 +612,9 @@ func ruleTypestate(c *Ctx) {
 	}
 	a := c.nilFor(b)
 	l := c.L
+	if ai := b.findApply(); ai != nil {
+		b.rootOnlyForEmptyPointer(l, ai)
+	}
 	// T1: producer side for eDoc
 	for _, fn := range a.fns {
 		allInstrs(fn, func(i ssa.Instruction) {
